@@ -5,6 +5,8 @@ CONSTANTS
   Mode = "sound"
   AtomicQueue = TRUE
   StaleTimeout = FALSE
+  StaleLists = FALSE
+  ThresholdBefore = TRUE
   InitStates = {"Queued"}
   B <- BSmall
   MaxHist = 0
